@@ -108,23 +108,9 @@ def cases(rng, tier):
 
 
 def progtext_cases(rng, n):
-    """members of the text family of ProgText.parse_prog (labels, pushN <expr>, %push(<expr>), instructions, any layout),
-    generated and rendered BY THE MODEL (`proggen`), then assembled by the real code: the tie then compares the two answers
-    on exactly the texts the theorem is about.  `nodes=1`: the model's own walk gave one node per statement."""
-    reqs = [f"proggen {rng.randrange(1 << 40)} {rng.choice([0, 1, 2, 3, 5, 8, 13])}" for _ in range(n)]
-    outs = C.run_lines(C.MODEL_EXE, reqs, timeout=600)
-    cs = []
-    for q, o in zip(reqs, outs):
-        m = o and __import__("re").match(r"text=(\S+) nodes=(\d)", o)
-        if not m:
-            cs.append({"line": "asm -", "tags": ["progtext", "generator-failed"], "src": f"{q} -> {o}", "want_ok": "generator-failed"})
-            continue
-        h = m.group(1)
-        c = {"line": f"asm {h}", "tags": ["progtext"], "src": bytes.fromhex(h).decode("utf-8", "replace") if h != "-" else ""}
-        if m.group(2) != "1":
-            c["want_ok"] = "model-walk-did-not-give-one-node-per-statement"
-        cs.append(c)
-    return cs
+    """the text family of ProgText.parse_prog (labels, pushN <expr>, %push(<expr>), instructions, any layout)"""
+    from props.asm_common import modelgen_cases
+    return modelgen_cases(rng, "proggen", n, "progtext")
 
 
 def oracle(case, reply):
